@@ -1212,6 +1212,176 @@ def r13e(P, R):
 NARROWING = ("filter", "filter_map", "retain", "retain_mut", "skip_while", "take_while", "map_while", "extract_if")
 
 
+NORMALISERS = ("normalize_path", "resolve_relative_path", "canonicalize")
+FS_SOURCES = ("std::fs::", "glob", "walkdir", "read_dir", "ignore::")
+
+
+def index_key_origin(P, impl, budget=400):
+    """Where do the keys of the collection that `impl` (an OperationResolver::resolve) looks paths up in come from?
+    -> ("violated", "<fn> (<file-system source>)") the backward trace reaches a function that enumerates/reads files and no normaliser
+       is applied to the paths between that function's source and the index;
+       ("holds", why) a normaliser lies on the way, or the paths are handed in by the host over the C ABI (contract of the host);
+       ("undecided", why) the trace does not reach a producer."""
+    crate = impl.path.split(" as ")[0].lstrip("<").split("::")[0] if impl.path.startswith("<") else impl.path.split("::")[0]
+    fi = inlined(P, impl)
+    fp = Prov(fi)
+    asked = {fp.params[b["local"]] for p in fi.params[1:] for b in subnodes(p) if b.get("k") == "Binding" and b["local"] in fp.params}
+    index_fields = set()
+    for x in fi.walk():
+        if x.get("k") == "MethodCall" and x["args"] and any(("param", a) in fp.atoms(x["args"][0]) for a in asked):
+            index_fields |= {(a[1], a[2]) for a in fp.atoms(x["recv"]) if a[0] == "field" and (a[1] or "").startswith(crate + "::")}
+    if not index_fields:
+        return "undecided", "the collection the requested path is looked up in is not recognised"
+    provs = {}
+
+    def prov(g):
+        if g.path not in provs:
+            provs[g.path] = Prov(g)
+        return provs[g.path]
+    crate_fns = [g for g in P.fns.values() if g.crate == impl.crate and g.kind in ("Fn", "AssocFn") and not g.derived
+                 and "::tests::" not in g.path and not g.file.endswith("tests.rs")]
+
+    def writers(adt, fname):
+        out = []
+        for g in crate_fns:
+            for x in g.walk():
+                if x.get("k") == "Struct" and "rest" not in x and norm(x.get("variant") or x.get("adt") or "") == adt:
+                    out += [(g, fl["e"]) for fl in x["fields"] if fl["name"] == fname]
+                elif x.get("k") == "MethodCall" and x["method"] in FILLS and x["args"]:
+                    r = strip(x["recv"])
+                    while r is not None and r.get("k") in ("AddrOf", "Unary"):
+                        r = strip(r.get("e"))
+                    if r is not None and r.get("k") == "Field" and norm(r.get("adt") or "") == adt and r.get("field") == fname:
+                        out += [(g, a) for a in x["args"][:1]]
+        return out
+    # functions whose return value is produced from the file system (directly, or through another such function)
+    leaf_atoms = {}
+    for g in crate_fns:
+        a = set()
+        for leaf in return_leaves(g):
+            a |= prov(g).atoms(leaf)
+        leaf_atoms[g.path] = a
+    producers = {p for p, a in leaf_atoms.items() if any(x[0] == "call" and x[1] not in P.fns and any(s_ in x[1] for s_ in FS_SOURCES) for x in a)}
+    grew = True
+    while grew:
+        grew = False
+        for p, a in leaf_atoms.items():
+            if p not in producers and any(x[0] == "call" and x[1] in producers for x in a):
+                producers.add(p)
+                grew = True
+
+    def value_nodes(pv, e):
+        """nodes the value of `e` is computed from — not descending into the arguments of a call of a producer (how the root
+        directory / the pattern handed to the file-system enumeration was obtained lies *before* the paths exist)"""
+        locals_, stack, nodes, atoms = set(), [e], [], set()
+        while stack:
+            y = stack.pop()
+            if isinstance(y, list):
+                stack.extend(y)
+                continue
+            if not isinstance(y, dict):
+                continue
+            if "k" in y:
+                nodes.append(y)
+                k = y.get("k")
+                if k == "Path" and "local" in y:
+                    if y["local"] in pv.params:
+                        atoms.add(("param", pv.params[y["local"]]))
+                    if y["local"] not in locals_:
+                        locals_.add(y["local"])
+                        for s_, extra in pv.src.get(y["local"], []):
+                            atoms |= set(extra)
+                            if s_ is not None:
+                                stack.append(s_)
+                elif k == "Field" and y.get("adt"):
+                    atoms.add(("field", norm(y["adt"]), y["field"]))
+                elif k in ("Call", "MethodCall"):
+                    c = call_name(y)
+                    if c:
+                        atoms.add(("call", c))
+                    if c in producers:
+                        continue
+                elif k in ("Binding", "Wild", "TupleStruct", "PatExpr", "Tuple", "Or", "Ref", "Range", "Slice") or (k == "Struct" and "rest" in y):
+                    continue
+            stack.extend(v for v in y.values() if isinstance(v, (dict, list)))
+        return nodes, atoms
+    def carries_path(t):
+        return "std::path::Path" in (norm(t) or "")
+
+    def field_ty(adt, fname):
+        a = P.adts.get(adt)
+        vs = a.variants if a is not None else []
+        if a is None and "::" in adt and adt.rsplit("::", 1)[0] in P.adts:          # an enum variant with named fields
+            vs = [v for v in P.adts[adt.rsplit("::", 1)[0]].variants if v["name"] == adt.rsplit("::", 1)[1]]
+        for v in vs:
+            for fl in v["fields"]:
+                if fl["name"] == fname:
+                    return fl["ty"]
+        return ""
+    todo = [w for adt, fname in index_fields for w in writers(adt, fname)]
+    seen, normalised, sources, host = set(), [], [], []
+    while todo and budget > 0:
+        g, e = todo.pop()
+        if e is None or id(e) in seen:
+            continue
+        seen.add(id(e))
+        budget -= 1
+        pv = prov(g)
+        vnodes, atoms = value_nodes(pv, e)
+        src = sorted({a[1] for a in atoms if a[0] == "call" and a[1] not in P.fns and any(s in a[1] for s in FS_SOURCES)})
+        # normalisers among the calls this value is computed through; inside the producing function only those applied to what the
+        # file-system source returned (normalising the root directory before globbing does not remove a `..` of the pattern)
+        for z in vnodes:
+            if z.get("k") in ("Call", "MethodCall") and (call_name(z) or "").split("::")[-1] in NORMALISERS:
+                za = set()
+                for a in ([z["recv"]] if z.get("k") == "MethodCall" else []) + z["args"]:
+                    za |= pv.atoms(a)
+                if not src or any(a[0] == "call" and a[1] in src for a in za):
+                    normalised.append("%s in %s" % ((call_name(z) or "").split("::")[-1], short(g.path)))
+        if src:
+            sources.append("%s (%s)" % (g.path, ", ".join(short(x) for x in src)))
+            continue        # the paths are produced here: what lies before is how the pattern / root was obtained
+        if g.abi not in (None, "Rust", "rust") or g.no_mangle:
+            host.append(g.path)     # built inside an exported function from what the host passed in
+            continue
+        for a in atoms:
+            if a[0] == "param":
+                idx = [i for i, p in enumerate(g.params) for b in subnodes(p) if b.get("k") == "Binding" and pv.params.get(b["local"]) == a[1]]
+                if not idx:
+                    continue
+                # a parameter that is only taken apart (`let Ctx { operations, .. } = ctx`) is followed through the field that
+                # is read, not as a whole (its other fields — configuration, root directory — do not flow into the keys)
+                if idx[0] < len(g.sig_inputs) and not carries_path(g.sig_inputs[idx[0]]) and "impl " not in g.sig_inputs[idx[0]]:
+                    continue        # only values whose type can carry a path are followed
+                pty = peel_ty(g.sig_inputs[idx[0]] if idx[0] < len(g.sig_inputs) else "").strip().split("<")[0]
+                if any(x[0] == "field" and x[1] and (x[1] == pty or x[1].rsplit("::", 1)[0] == pty) for x in atoms):
+                    continue
+                if g.abi not in (None, "Rust", "rust") or g.no_mangle:
+                    host.append(g.path)
+                    continue
+                for cp in P.callers_of(g.path):
+                    c = P.fns.get(cp)
+                    if c is None or "::tests::" in cp or c.derived:
+                        continue
+                    for x in c.walk():
+                        if x.get("k") in ("Call", "MethodCall") and call_name(x) == g.path:
+                            args = ([x["recv"]] if x.get("k") == "MethodCall" else []) + x["args"]
+                            if idx[0] < len(args):
+                                todo.append((c if c.kind in ("Fn", "AssocFn") else c, args[idx[0]]))
+            elif a[0] == "field" and (a[1] or "").startswith(crate + "::") and carries_path(field_ty(a[1], a[2])):
+                todo.extend(writers(a[1], a[2]))
+            elif a[0] == "call" and a[1] in P.fns and P.fns[a[1]].crate == impl.crate and not P.fns[a[1]].derived \
+                    and P.fns[a[1]].kind in ("Fn", "AssocFn") and a[1] != g.path and carries_path(P.fns[a[1]].sig_output):
+                todo.extend((P.fns[a[1]], leaf) for leaf in return_leaves(P.fns[a[1]]))
+    if normalised:
+        return "holds", "the indexed paths pass through %s" % sorted(set(normalised))[0]
+    if sources:
+        return "violated", sorted(set(sources))[0]
+    if host:
+        return "holds", "the indexed paths are handed in by the host over the C ABI (%s); normalisation is the host's contract" % short(host[0])
+    return "undecided", "the producer of the indexed paths was not reached (budget %s)" % ("exhausted" if budget <= 0 else "left")
+
+
 def r13f(P, R):
     """the resolvers behind `OperationResolver` know every configured document, and the name lists the traversal searches are
     searched in a way that does not presuppose an order"""
@@ -1266,6 +1436,22 @@ def r13f(P, R):
                    "it is reported as FileNotFound" % (g.path, m), loc=g.loc())
     else:
         R.holds("R13-f", "resolver-index", "no document is left out of a resolver's index because of what it defines (%d functions)" % len(scope))
+    # (1a) writer/reader agreement on the spelling of paths: the traversal asks for `resolve_relative_path(..)` results, which are
+    # normalised, so the paths under which a resolver indexes its documents must be normalised too.  The index is the collection
+    # `resolve` looks the requested path up in; its keys are traced backwards (parameters -> call sites, fields -> where they
+    # are set, calls -> what the callee returns) to where the paths are produced.
+    for f in impls:
+        verdict, detail = index_key_origin(P, f)
+        if verdict == "violated":
+            R.violated("R13-f", "index-keys-normalised",
+                       "%s looks requested files up by the normalised path the traversal computes (resolve_relative_path), but the paths it indexes "
+                       "its documents by come from %s un-normalised (no normalize_path/resolve_relative_path between that source and the index): "
+                       "with a `..` in the documents pattern every configured document is stored as `/p/a/../b.graphql`, never found as "
+                       "`/p/b.graphql`, and each `#import` of it reports FileNotFound" % (short(f.path), detail), loc=f.loc())
+        elif verdict == "holds":
+            R.holds("R13-f", "index-keys-normalised", "%s: %s" % (short(f.path), detail), loc=f.loc())
+        else:
+            R.undecided("R13-f", "index-keys-normalised", "%s: %s" % (short(f.path), detail), loc=f.loc())
     # (1b) "file not found exactly when the file is not among the configured documents": a resolver looks the requested path up
     # as it is; a second lookup under a rewritten path (other extension, file name only, parent ...) makes an import of a file that
     # is not configured silently resolve to another file
